@@ -7,8 +7,12 @@ import QV.Model.Cli
 
   (cli-paths (opts OUTDIR|_ NODYN NOLOWER) "source")            → (refused) | (not-qml) | (ok "ui" "hdr"|_)      model
   (spec-cli-paths (opts …) "source")                            → same, computed from Spec.Fs.specRefused/specNames
+  (cli-paths (opts …) (multi "src"…)) / (spec-cli-paths (opts …) (multi "src"…))
+        several sources on one command line, fresh directory → (multi (status S) (files "p"…))
+        model: `generateUi`; spec: refused (nothing written) iff -O and SOME source is refused by `specRefused`,
+        otherwise exactly the documented files (`specNames` at the documented place), sorted, duplicates once
   (cli-hist (opts …) (sources (src "path" U H|fail|missing|dir)…) (steps STEP…))
-        STEP = (gen) | (edit I U H) | (edit I fail) | (rm "p") | (put-file "p") | (put-dir "p")
+        STEP = (gen) | (edit I U H) | (edit I fail) | (rm "p") | (put-file "p") | (put-dir "p") | (chmod "p" ro|rw)
         → (hist (step (status S) (trace OP…) (changed "p"…))… (final ENTRY…))
   (cli-kill  same arguments)   → (crash-states (state ENTRY…)…): the states after every prefix of the LAST gen step's trace
   Paths are printed canonically: relative to the cwd (`/ABS` stands for the cwd in absolute spellings), `.` dropped,
@@ -60,7 +64,7 @@ def Opts.model (o : Opts) : Options :=
 
 /-! ### cli-paths -/
 
-def handlePaths (args : List Sexp) : Sexp :=
+def handlePaths1 (args : List Sexp) : Sexp :=
   match args with
   | [o, .str src] =>
     match opts? o with
@@ -79,6 +83,43 @@ def segsToPath (abs : Bool) (segs : List Name) : Path :=
   (if abs then [Component.rootDir] else []) ++ segs.filterMap fun s =>
     if s == [] || s == ['.'] then none else if s == ['.', '.'] then some .parentDir else some (.normal s)
 
+/-- the documented output names of one source at the documented place (canonical text); `none`: not `STEM.qml` -/
+def specOutputs (o : Opts) (src : List Char) : Option (String × String) :=
+  let segs := splitSlash src
+  let file := segs.getLastD []
+  let n := file.length
+  if n ≥ 5 && (file.drop (n - 4)).map lowerChar == ['.', 'q', 'm', 'l'] then
+    let names := specNames (!o.nolower) (file.take (n - 4))
+    let srcAbs := src.head? == some '/'
+    let (abs, dirSegs) := match o.outdir with
+      | some d => (d.head? == some '/', splitSlash d ++ segs.dropLast)
+      | none => (srcAbs, segs.dropLast)
+    some (showPath (segsToPath abs (dirSegs ++ [names.1])), showPath (segsToPath abs (dirSegs ++ [names.2])))
+  else none
+
+def insertStr (x : String) : List String → List String
+  | [] => [x]
+  | y :: ys => if x < y then x :: y :: ys else if x == y then y :: ys else y :: insertStr x ys
+
+def multiSexp (status : Sexp) (files : List String) : Sexp :=
+  .list [.atom "multi", .list [.atom "status", status], .list (.atom "files" :: files.map fun s => .str s.toList)]
+
+/-- specification side of a command line with several sources (Spec.Fs only) -/
+def handleSpecMulti (o : Opts) (srcs : List (List Char)) : Sexp :=
+  if o.outdir.isSome && srcs.any specRefused then multiSexp (.atom "refused") []
+  else
+    match srcs.mapM (specOutputs o) with
+    | none => .list [.atom "skip", .atom "not-qml"]
+    | some outs =>
+      let files := outs.flatMap fun (u, h) => if o.nodyn then [u] else [u, h]
+      multiSexp (.atom "ok") (files.foldr insertStr [])
+
+def multiSources? : Sexp → Option (List (List Char))
+  | .list (.atom "multi" :: ss) => ss.mapM fun
+    | .str p => some p
+    | _ => none
+  | _ => none
+
 def handleSpecPaths (args : List Sexp) : Sexp :=
   match args with
   | [o, .str src] =>
@@ -86,19 +127,13 @@ def handleSpecPaths (args : List Sexp) : Sexp :=
     | none => bad
     | some o =>
       if o.outdir.isSome && specRefused src then .list [.atom "refused"]
-      else
-        let segs := splitSlash src
-        let file := segs.getLastD []
-        let n := file.length
-        if n ≥ 5 && (file.drop (n - 4)).map lowerChar == ['.', 'q', 'm', 'l'] then
-          let names := specNames (!o.nolower) (file.take (n - 4))
-          let srcAbs := src.head? == some '/'
-          let (abs, dirSegs) := match o.outdir with
-            | some d => (d.head? == some '/', splitSlash d ++ segs.dropLast)
-            | none => (srcAbs, segs.dropLast)
-          .list [.atom "ok", pathSexp (segsToPath abs (dirSegs ++ [names.1])),
-            if o.nodyn then .atom "_" else pathSexp (segsToPath abs (dirSegs ++ [names.2]))]
-        else .list [.atom "not-qml"]
+      else match specOutputs o src with
+        | some (u, h) => .list [.atom "ok", .str u.toList, if o.nodyn then .atom "_" else .str h.toList]
+        | none => .list [.atom "not-qml"]
+  | [o, m] =>
+    match opts? o, multiSources? m with
+    | some o, some srcs => handleSpecMulti o srcs
+    | _, _ => bad
   | _ => bad
 
 /-! ### histories -/
@@ -171,15 +206,26 @@ def sortEntries (l : List (String × Sexp)) : List (String × Sexp) := l.foldr i
 
 def dedupPaths (l : List Path) : List Path := l.foldl (fun acc p => if acc.contains p then acc else p :: acc) []
 
+/-- `..`, `../..`, …: ancestors of the cwd (scaffolding of the harness, not part of the listed tree) -/
+def onlyUps (name : String) : Bool := (name.splitOn "/").all (· == "..")
+
+def dedupEntries (l : List (String × Sexp)) : List (String × Sexp) :=
+  l.foldl (fun acc x =>
+    let isDirEntry := match x.2 with
+      | .list (.atom "dir" :: _) => true
+      | _ => false
+    if isDirEntry && acc.any (fun y => y.1 == x.1 && toString y.2 == toString x.2) then acc else acc ++ [x]) []
+
 def listing (fs : FS) (known : List Path) : List Sexp :=
   let entries := (dedupPaths known).filterMap fun p =>
     let name := showPath p
-    if name == "." then none
+    if name == "." || onlyUps name then none
     else match fs p with
       | none => none
       | some .dir => some (name, Sexp.list [.atom "dir", .str name.toList])
       | some (.file b) => some (name, Sexp.list [.atom "file", .str name.toList, contentSexp b])
-  (sortEntries entries).map (·.2)
+  -- two spellings of one DIRECTORY (`/ABS/sub` and `sub`) are one entry (several `.tmp*` files stay several)
+  (sortEntries (dedupEntries entries)).map (·.2)
 
 def opSexp : Op → Sexp
   | .mkdir p => .list [.atom "mkdir", pathSexp p]
@@ -222,6 +268,22 @@ def runGen (o : Opts) (st : St) (stepIdx : Nat) : List Op × Status :=
   let sources := st.srcs.map fun s => (⟨parsePath s.path, outcomeOf o s⟩ : Source)
   generateUi o.model (tmpNames stepIdx) st.fs sources
 
+/-- model side of a command line with several sources in a fresh directory: source `i` is in state `ok 1 (i mod 2)`
+    (`ok 1 0` with --no-dynamic-binding), as the harness materialises it -/
+def handleMulti (o : Opts) (srcs : List (List Char)) : Sexp :=
+  let ss : List Src := srcs.zipIdx.map fun (p, i) => ⟨p, .ok 1 (if o.nodyn then 0 else i % 2)⟩
+  let (ops, status) := runGen o (initState ss) 0
+  multiSexp (statusAtom status) (changedOf ops)
+
+def handlePaths (args : List Sexp) : Sexp :=
+  match args with
+  | [_, .str _] => handlePaths1 args
+  | [o, m] =>
+    match opts? o, multiSources? m with
+    | some o, some srcs => handleMulti o srcs
+    | _, _ => bad
+  | _ => bad
+
 def applyOps (st : St) (ops : List Op) : St :=
   { st with fs := run st.fs ops, known := (ops.map Op.targets).flatten ++ st.known }
 
@@ -247,6 +309,8 @@ def applyEdit (st : St) : Sexp → Option St
     let p := key (parsePath p)
     let (fs, known) := addDirs st.fs st.known p
     some { st with fs, known }
+  -- permission bits are not part of the abstract file system (replace-by-rename does not read them)
+  | .list [.atom "chmod", .str _, .atom _] => some st
   | _ => none
 
 def parseHist (args : List Sexp) : Option (Opts × List Src × List Sexp) :=
